@@ -104,6 +104,14 @@ class Ctx:
     def build_go(self, name, tags="verif", overlay=None):
         """build go/cmd/<name> against /repo's current working tree"""
         cmd = ["go", "build", "-tags", tags, "-o", os.path.join(BUILD, name)]
+        if REPO != "/repo":
+            # scratch copy of the repository (mutation testing / fix validation): alternate go.mod
+            alt = os.path.join(self.work, "go.alt.mod")
+            with open(alt, "w") as f:
+                f.write(open(os.path.join(GO, "go.mod")).read().replace("=> /repo/", "=> " + REPO.rstrip("/") + "/"))
+            shutil.copy(os.path.join(GO, "go.sum"), os.path.join(self.work, "go.alt.sum"))
+            cmd += ["-modfile", alt]
+            cmd[cmd.index("-o") + 1] = os.path.join(self.work, name)
         if overlay:
             cmd += ["-overlay", overlay]
         cmd += ["./cmd/" + name]
@@ -112,17 +120,22 @@ class Ctx:
         if rc != 0:
             self.corr_broken.append("harness %s does not build against the current tree:\n%s" % (name, out[-3000:]))
             return None
-        return os.path.join(BUILD, name)
+        return cmd[cmd.index("-o") + 1]
 
     def lake(self, targets):
         with Lock():
             rc, out = sh(["lake", "build"] + targets, cwd=LEAN)
         return rc, out
 
-    def build_driver(self):
-        rc, out = self.lake(["modeldriver"])
+    def driver_path(self, engine):
+        exe = "modeldriver" if engine == "cache" else "md_" + engine
+        return exe, os.path.join(LEAN, ".lake", "build", "bin", exe)
+
+    def build_driver(self, engine="cache"):
+        exe, _ = self.driver_path(engine)
+        rc, out = self.lake([exe])
         if rc != 0:
-            self.proof_errors.append("model driver does not build:\n" + out[-3000:])
+            self.proof_errors.append("model driver %s does not build:\n%s" % (exe, out[-3000:]))
             return False
         return True
 
@@ -195,7 +208,8 @@ class Ctx:
         """returns (summary dict, mismatch lines, monitor-fail lines)"""
         with open(trace) as f:
             try:
-                p = subprocess.run([DRIVER, engine], stdin=f, stdout=subprocess.PIPE, stderr=subprocess.PIPE, text=True, timeout=timeout)
+                drv = self.driver_path(engine)[1]
+                p = subprocess.run([drv] + ([engine] if engine == "cache" else list(getattr(self, "driver_args", []))), stdin=f, stdout=subprocess.PIPE, stderr=subprocess.PIPE, text=True, timeout=timeout)
             except subprocess.TimeoutExpired:
                 self.corr_broken.append("model driver timed out on %s" % trace); return {}, [], []
         if p.returncode != 0:
